@@ -4,8 +4,8 @@ package main
 
 import (
 	"go/token"
-	"os"
 	"go/types"
+	"os"
 	"sort"
 	"strings"
 
@@ -669,7 +669,10 @@ func checkAdapterSpecifics(r *Run) {
 	} else {
 		fromRes := func(i int) VPred {
 			return func(v ssa.Value) bool {
-				return derivesFrom(v, func(y ssa.Value) bool { e, ok := y.(*ssa.Extract); return ok && e.Tuple == ssa.Value(co) && e.Index == i })
+				return derivesFrom(v, func(y ssa.Value) bool {
+					e, ok := y.(*ssa.Extract)
+					return ok && e.Tuple == ssa.Value(co) && e.Index == i
+				})
 			}
 		}
 		var setter *ssa.Call
@@ -694,7 +697,10 @@ func checkAdapterSpecifics(r *Run) {
 		if okv {
 			// on every path on which a previous object exists the setter is executed before returning
 			edges := condEdges(ca, func(cond ssa.Value, _ *ssa.If) int {
-				return -nilCond(cond, func(y ssa.Value) bool { e, ok := y.(*ssa.Extract); return ok && e.Tuple == ssa.Value(co) && e.Index == 1 })
+				return -nilCond(cond, func(y ssa.Value) bool {
+					e, ok := y.(*ssa.Extract)
+					return ok && e.Tuple == ssa.Value(co) && e.Index == 1
+				})
 			})
 			if len(edges) == 0 {
 				okv = false
@@ -781,7 +787,10 @@ func checkAdapterSpecifics(r *Run) {
 				return pol
 			}
 			// a nil balance counts as zero
-			return nilCond(cond, func(y ssa.Value) bool { c, ok := y.(*ssa.Call); return ok && strings.HasSuffix(calleeName(c), "EthAccount).Balance") })
+			return nilCond(cond, func(y ssa.Value) bool {
+				c, ok := y.(*ssa.Call)
+				return ok && strings.HasSuffix(calleeName(c), "EthAccount).Balance")
+			})
 		},
 		"empty code hash": func(cond ssa.Value) int {
 			return boolCond(cond, func(y ssa.Value) bool {
@@ -790,7 +799,10 @@ func checkAdapterSpecifics(r *Run) {
 					return false
 				}
 				isHash := func(v ssa.Value) bool { return strings.HasSuffix(pathOf(v).FieldString(), "CodeHash") }
-				isEmpty := func(v ssa.Value) bool { g, ok := pathOf(v).Root.(*ssa.Global); return ok && g.Name() == "emptyCodeHash" }
+				isEmpty := func(v ssa.Value) bool {
+					g, ok := pathOf(v).Root.(*ssa.Global)
+					return ok && g.Name() == "emptyCodeHash"
+				}
 				return (isHash(c.Call.Args[0]) && isEmpty(c.Call.Args[1])) || (isHash(c.Call.Args[1]) && isEmpty(c.Call.Args[0]))
 			})
 		},
